@@ -14,6 +14,20 @@ Supported subset (anything else raises `Unsupported`, which the engine turns int
     `eslCONST_PI`), never from the rounded double; the text is checked to denote the value clang parsed.
 Control flow is rendered in continuation style: the statements following an `if` are appended to each branch that
 does not return, so every path of the C function is one `if … then … else …` path of the Lean term.
+
+Round-3 extensions (same command line, same `translate_all` interface; existing output unchanged):
+  * `do { … } while (c);` and `while (c) { … }` with `break` and early `return`: each loop becomes a top-level helper
+    `<fn>_loop<k>` that recurses structurally on a FUEL argument (`none` = fuel exhausted: the C loop would still be
+    running) and whose arguments are the variables in scope at loop entry; the code after the loop becomes
+    `<fn>_exit<k>`.  A function containing a loop takes a leading `fuel : Nat` and returns `Option α`; a call to such
+    a function is accepted in tail position (`return f(…)`).  Variables first assigned inside a loop body are local to
+    one iteration (a later use is an unknown identifier in Lean, i.e. a loud failure).
+  * counted loops `for (k = c; k < N; k++) body` (no `break`/`return`, one variable carried) become
+    `(List.range' c (N - c)).foldl (fun v k => …) v`;
+  * `int`/`int64_t` parameters and loop counters (`Nat`), `double *` parameters and members (`List α`, read with
+    `getD · 0.0`, written with `List.set`), pointers to the parameter structures `ESL_HYPEREXP`, `ESL_MIXGEV`
+    (a Lean `structure` with the members the translated functions use; `h->wrk[k] = e` updates the structure value
+    local to the call: the scratch vector is not carried across calls), `void *params` immediately cast to one of these.
 """
 import json, os, re, subprocess, sys
 
@@ -24,6 +38,10 @@ LEAN_KEYWORDS = {"at", "in", "from", "end", "then", "do", "open", "fun", "let", 
                  "mut", "for", "return", "import", "namespace", "section", "variable", "universe", "using", "calc",
                  "u", "α", "inf", "exp", "log", "log1p", "expm1", "pow", "sqrt", "floor", "fabs", "erfc"}
 CMP = {"<", "<=", ">", ">=", "==", "!="}
+INT_TYPES = {"int", "int64_t", "const int", "const int64_t", "long", "const long"}
+ARR_TYPES = {"double *", "const double *"}
+STRUCT_TYPES = {"ESL_HYPEREXP *": "ESL_HYPEREXP", "ESL_MIXGEV *": "ESL_MIXGEV"}
+DBL_TYPES = {"double", "const double"}
 
 
 class Unsupported(Exception):
@@ -93,12 +111,19 @@ def lean_float_literal(text, value, where):
 
 
 class FnTranslator:
-    def __init__(self, fdecl, cfile, files, known):
+    def __init__(self, fdecl, cfile, files, known, structs=None, partial_fns=None):
         self.f, self.cfile, self.files, self.known = fdecl, cfile, files, known
         self.name = fdecl["name"]
         self.rng_param = None
         self.rng_used = 0
         self.literals = []
+        self.structs = structs if structs is not None else {}      # struct name -> {member: kind} (insertion ordered)
+        self.partial_fns = partial_fns if partial_fns is not None else set()
+        self.vkind = {}            # C variable -> 'd' | 'int' | 'arr' | 'struct:<NAME>' | 'void'
+        self.helpers = []          # loop / exit helper definitions, in dependency order
+        self.nloops = 0
+        self.loop_stack = []       # exit-call text of the enclosing do/while loops (None inside a counted for)
+        self.partial = False
 
     def where(self, n=None):
         line = (n or self.f).get("loc", {}).get("line") or (n or self.f).get("range", {}).get("begin", {}).get("line")
@@ -106,6 +131,33 @@ class FnTranslator:
 
     def ident(self, s):
         return s + "_" if s in LEAN_KEYWORDS else s
+
+    @staticmethod
+    def kind_of(t):
+        if t in DBL_TYPES:
+            return "d"
+        if t in INT_TYPES:
+            return "int"
+        if t in ARR_TYPES:
+            return "arr"
+        if t in STRUCT_TYPES:
+            return "struct:" + STRUCT_TYPES[t]
+        if t == "void *":
+            return "void"
+        return None
+
+    def lean_type(self, kind):
+        return {"d": "α", "int": "Nat", "arr": "List α", "rng": "α"}.get(kind) or "%s α" % kind.split(":", 1)[1]
+
+    def strip(self, n, cstyle=False):
+        while True:
+            k = n["kind"]
+            if k == "ParenExpr" or (cstyle and k == "CStyleCastExpr"):
+                n = n["inner"][0]
+            elif k == "ImplicitCastExpr" and n.get("castKind") in ("LValueToRValue", "NoOp", "IntegralCast", "BitCast"):
+                n = n["inner"][0]
+            else:
+                return n
 
     # ---- expressions ------------------------------------------------------------------------
     def literal(self, n):
@@ -140,6 +192,86 @@ class FnTranslator:
             raise Unsupported("%s: indirect call" % self.where(n))
         return c["referencedDecl"]["name"]
 
+    def var_kind(self, rd, n):
+        nm = rd.get("name")
+        if rd["kind"] not in ("VarDecl", "ParmVarDecl"):
+            raise Unsupported("%s: reference to %s %s" % (self.where(n), rd["kind"], nm))
+        return self.vkind.get(nm) or self.kind_of(rd["type"]["qualType"])
+
+    def member(self, n, want):
+        """h->name : register the member with the structure, return the Lean projection"""
+        if not n.get("isArrow"):
+            raise Unsupported("%s: member access by value" % self.where(n))
+        base = self.strip(n["inner"][0])
+        if base["kind"] != "DeclRefExpr":
+            raise Unsupported("%s: member of a computed pointer" % self.where(n))
+        bk = self.var_kind(base["referencedDecl"], n)
+        if not bk or not bk.startswith("struct:"):
+            raise Unsupported("%s: member of %s" % (self.where(n), base["referencedDecl"]["type"]["qualType"]))
+        mk = self.kind_of(n["type"]["qualType"])
+        if mk != want:
+            raise Unsupported("%s: member %s of type %s where %s is expected" % (self.where(n), n.get("name"), n["type"]["qualType"], want))
+        sn = bk.split(":", 1)[1]
+        fields = self.structs.setdefault(sn, {})
+        if fields.setdefault(n["name"], mk) != mk:
+            raise Unsupported("%s: member %s used at two types" % (self.where(n), n["name"]))
+        return "%s.%s" % (self.ident(base["referencedDecl"]["name"]), self.ident(n["name"]))
+
+    def int_expr(self, n):
+        c = self.strip(n)
+        k = c["kind"]
+        if k == "IntegerLiteral":
+            return str(int(c["value"]))
+        if k == "DeclRefExpr":
+            if self.var_kind(c["referencedDecl"], c) != "int":
+                raise Unsupported("%s: %s is not an integer variable" % (self.where(c), c["referencedDecl"].get("name")))
+            return self.ident(c["referencedDecl"]["name"])
+        if k == "MemberExpr":
+            return self.member(c, "int")
+        if k == "BinaryOperator" and c["opcode"] == "+":
+            return "(%s + %s)" % (self.int_expr(c["inner"][0]), self.int_expr(c["inner"][1]))
+        raise Unsupported("%s: integer expression of kind %s %s" % (self.where(c), k, c.get("opcode", "")))
+
+    def ptr_expr(self, n):
+        c = self.strip(n, cstyle=True)
+        k = c["kind"]
+        if k == "DeclRefExpr":
+            if self.var_kind(c["referencedDecl"], c) != "arr":
+                raise Unsupported("%s: %s is not a double array" % (self.where(c), c["referencedDecl"].get("name")))
+            return self.ident(c["referencedDecl"]["name"])
+        if k == "MemberExpr":
+            return self.member(c, "arr")
+        raise Unsupported("%s: pointer expression of kind %s" % (self.where(c), k))
+
+    def struct_expr(self, n, sname):
+        c = self.strip(n, cstyle=True)
+        if c["kind"] == "DeclRefExpr" and self.var_kind(c["referencedDecl"], c) == "struct:" + sname:
+            return self.ident(c["referencedDecl"]["name"])
+        raise Unsupported("%s: %s argument expected" % (self.where(c), sname))
+
+    def call_args(self, fn, n):
+        args = n["inner"][1:]
+        kinds = self.known[fn]
+        if len(kinds) != len(args):
+            raise Unsupported("%s: call to %s with %d arguments" % (self.where(n), fn, len(args)))
+        out = []
+        for a, kd in zip(args, kinds):
+            if kd == "rng":
+                # passing the generator on: the callee draws the (single) deviate
+                self.rng_used += 1
+                if self.rng_used > 1:
+                    raise Unsupported("%s: more than one deviate drawn" % self.where(n))
+                out.append("u")
+            elif kd == "d":
+                out.append(self.atom(a))
+            elif kd == "int":
+                out.append(self.wrap(self.int_expr(a)))
+            elif kd == "arr":
+                out.append(self.wrap(self.ptr_expr(a)))
+            else:
+                out.append(self.struct_expr(a, kd.split(":", 1)[1]))
+        return " ".join(out)
+
     def expr(self, n):
         k = n["kind"]
         ty = n.get("type", {}).get("qualType")
@@ -170,6 +302,12 @@ class FnTranslator:
             if rd["kind"] not in ("VarDecl", "ParmVarDecl") or rd["type"]["qualType"] not in ("double", "const double"):
                 raise Unsupported("%s: reference to %s %s of type %s" % (self.where(n), rd["kind"], rd.get("name"), rd["type"]["qualType"]))
             return self.ident(rd["name"])
+        if k == "MemberExpr":
+            return self.member(n, "d")
+        if k == "ArraySubscriptExpr":
+            if ty not in DBL_TYPES:
+                raise Unsupported("%s: subscript at type %s" % (self.where(n), ty))
+            return "(%s.getD %s 0.0)" % (self.ptr_expr(n["inner"][0]), self.int_expr(n["inner"][1]))
         if k == "UnaryOperator":
             if n["opcode"] == "-":
                 return "(-%s)" % self.expr(n["inner"][0])
@@ -199,17 +337,9 @@ class FnTranslator:
                     raise Unsupported("%s: more than one deviate drawn" % self.where(n))
                 return "u"
             if fn in self.known:
-                out = []
-                for a, isr in zip(args, self.known[fn]):
-                    if isr:
-                        # passing the generator on: the callee draws the (single) deviate
-                        self.rng_used += 1
-                        if self.rng_used > 1:
-                            raise Unsupported("%s: more than one deviate drawn" % self.where(n))
-                        out.append("u")
-                    else:
-                        out.append(self.atom(a))
-                return "(%s %s)" % (fn, " ".join(out))
+                if fn in self.partial_fns:
+                    raise Unsupported("%s: call to the loop-containing %s outside tail position" % (self.where(n), fn))
+                return "(%s %s)" % (fn, self.call_args(fn, n))
             raise Unsupported("%s: call to %s is outside the translated subset" % (self.where(n), fn))
         raise Unsupported("%s: expression kind %s" % (self.where(n), k))
 
@@ -240,6 +370,9 @@ class FnTranslator:
     def atomize(self, e):
         return e if re.fullmatch(r"\w+|\(.*\)", e) else "(%s)" % e
 
+    def wrap(self, e):
+        return e if re.fullmatch(r"[\w.]+|\(.*\)", e) and not re.fullmatch(r"[\d.]+e-\d+", e) else "(%s)" % e
+
     # ---- statements -------------------------------------------------------------------------
     def outparam(self, a):
         """&v -> 'v' ; NULL -> None"""
@@ -268,7 +401,7 @@ class FnTranslator:
 
     def terminates(self, stmts):
         for s in stmts:
-            if s["kind"] == "ReturnStmt":
+            if s["kind"] in ("ReturnStmt", "BreakStmt"):
                 return True
             if s["kind"] == "IfStmt":
                 inner = s["inner"]
@@ -276,45 +409,151 @@ class FnTranslator:
                     return True
         return False
 
-    def block(self, stmts, ind):
-        """stmts: list of statement nodes forming the rest of the function on this path -> Lean term lines"""
+    def contains_kind(self, n, kinds):
+        if isinstance(n, dict):
+            if n.get("kind") in kinds:
+                return True
+            return any(self.contains_kind(c, kinds) for c in n.get("inner", []))
+        return False
+
+    def lhs_root(self, lhs):
+        """variable that an assignment through `lhs` changes: `v`, `v[i]`, `h->m[i]`"""
+        c = self.strip(lhs)
+        if c["kind"] == "ArraySubscriptExpr":
+            c = self.strip(c["inner"][0], cstyle=True)
+        if c["kind"] == "MemberExpr":
+            c = self.strip(c["inner"][0])
+        if c["kind"] == "DeclRefExpr":
+            return c["referencedDecl"]["name"]
+        raise Unsupported("%s: assignment target" % self.where(lhs))
+
+    def assigned_roots(self, n, out):
+        if isinstance(n, dict):
+            k = n.get("kind")
+            if (k == "BinaryOperator" and n.get("opcode") == "=") or k == "CompoundAssignOperator":
+                r = self.lhs_root(n["inner"][0])
+                if r not in out:
+                    out.append(r)
+            if k == "UnaryOperator" and n.get("opcode") in ("++", "--"):
+                r = self.lhs_root(n["inner"][0])
+                if r not in out:
+                    out.append(r)
+            for c in n.get("inner", []):
+                self.assigned_roots(c, out)
+        return out
+
+    def binders(self, names):
+        """`(a b : α) (h : ESL_HYPEREXP α)` for the variables `names` (C names)"""
+        out, run, last = [], [], None
+        for nm in names:
+            t = self.lean_type(self.vkind[nm])
+            if t != last and run:
+                out.append("(%s : %s)" % (" ".join(run), last)); run = []
+            run.append("u" if self.vkind[nm] == "rng" else self.ident(nm)); last = t
+        if run:
+            out.append("(%s : %s)" % (" ".join(run), last))
+        return " ".join(out)
+
+    def ret(self, e):
+        return "some %s" % self.wrap(e) if self.partial else e
+
+    def block(self, stmts, ind, scope=()):
+        """stmts: list of statement nodes forming the rest of the function on this path -> Lean term lines.
+           scope: the C variables that hold a value at this point (in order of first definition)."""
         pad = "  " * ind
+        scope = list(scope)
         if not stmts:
             raise Unsupported("%s: control reaches the end of the function without a return" % self.where())
         s, rest = stmts[0], stmts[1:]
         k = s["kind"]
+
+        def define(v):
+            return scope if v in scope else scope + [v]
+
         if k == "NullStmt":
-            return self.block(rest, ind)
+            return self.block(rest, ind, scope)
         if k == "CompoundStmt":
-            return self.block(self.flatten(s) + rest, ind)
+            return self.block(self.flatten(s) + rest, ind, scope)
+        if k == "_Yield":
+            return [pad + self.ident(s["var"])]
+        if k == "_LoopTest":
+            call = "%s fuel %s gas" % (s["loop"], " ".join(self.ident(v) for v in s["pars"]))
+            if s["cond"] is None:
+                return [pad + call]
+            return [pad + "if %s then" % self.cond(s["cond"]), pad + "  " + call, pad + "else", pad + "  " + s["exit"]]
+        if k == "BreakStmt":
+            if not self.loop_stack or self.loop_stack[-1] is None:
+                raise Unsupported("%s: break outside a do/while loop" % self.where(s))
+            return [pad + self.loop_stack[-1]]
         if k == "ReturnStmt":
             if not s.get("inner"):
                 raise Unsupported("%s: return without value" % self.where(s))
-            return [pad + self.expr(s["inner"][0])]
+            e = s["inner"][0]
+            c = self.strip(e)
+            if c["kind"] == "CallExpr" and self.callee(c) in self.partial_fns:
+                fn = self.callee(c)
+                if not self.partial:
+                    raise Unsupported("%s: tail call to %s from a function not marked partial" % (self.where(s), fn))
+                return [pad + "%s fuel %s" % (fn, self.call_args(fn, c))]
+            return [pad + self.ret(self.expr(e))]
         if k == "DeclStmt":
             lines = []
             for v in s["inner"]:
-                if v["kind"] != "VarDecl" or v["type"]["qualType"] not in ("double", "const double"):
-                    raise Unsupported("%s: declaration of %s : %s" % (self.where(s), v.get("name"), v.get("type", {}).get("qualType")))
+                if v["kind"] != "VarDecl":
+                    raise Unsupported("%s: declaration" % self.where(s))
                 if v.get("storageClass"):
                     raise Unsupported("%s: %s variable" % (self.where(s), v["storageClass"]))
-                if v.get("inner"):
-                    lines.append(pad + "let %s := %s" % (self.ident(v["name"]), self.expr(v["inner"][0])))
-            return lines + self.block(rest, ind)
+                t = v["type"]["qualType"]
+                kd = self.kind_of(t)
+                if kd == "d":
+                    self.vkind[v["name"]] = "d"
+                    if v.get("inner"):
+                        lines.append(pad + "let %s := %s" % (self.ident(v["name"]), self.expr(v["inner"][0])))
+                        scope = define(v["name"])
+                elif kd == "int" and not v.get("inner"):
+                    self.vkind[v["name"]] = "int"            # a loop counter: gets its value from a counted `for`
+                elif kd in ("arr",) or (kd or "").startswith("struct:"):
+                    # `double *p = (double *) params;` / `ESL_X *h = (ESL_X *) params;` : a typed view of the void* parameter
+                    src = self.strip(v["inner"][0], cstyle=True) if v.get("inner") else None
+                    if not src or src["kind"] != "DeclRefExpr" or self.vkind.get(src["referencedDecl"]["name"]) not in ("void", kd):
+                        raise Unsupported("%s: declaration of %s : %s" % (self.where(s), v.get("name"), t))
+                    self.vkind[src["referencedDecl"]["name"]] = kd
+                    self.vkind[v["name"]] = kd
+                    lines.append(pad + "let %s := %s" % (self.ident(v["name"]), self.ident(src["referencedDecl"]["name"])))
+                    scope = define(v["name"])
+                else:
+                    raise Unsupported("%s: declaration of %s : %s" % (self.where(s), v.get("name"), t))
+            return lines + self.block(rest, ind, scope)
         if k in ("BinaryOperator", "CompoundAssignOperator"):
             op = s["opcode"]
-            lhs = s["inner"][0]
-            if lhs["kind"] != "DeclRefExpr" or op not in ("=", "+=", "-=", "*=", "/="):
+            lhs = self.strip(s["inner"][0])
+            if op not in ("=", "+=", "-=", "*=", "/="):
                 raise Unsupported("%s: statement %s" % (self.where(s), op))
-            v = self.expr(lhs)
             rhs_node = s["inner"][1]
             # chained assignment a = b = e
             if rhs_node["kind"] == "BinaryOperator" and rhs_node["opcode"] == "=":
                 raise Unsupported("%s: chained assignment" % self.where(s))
+            if lhs["kind"] == "ArraySubscriptExpr":
+                if lhs["type"]["qualType"] != "double":
+                    raise Unsupported("%s: store at type %s" % (self.where(s), lhs["type"]["qualType"]))
+                cur = self.expr(lhs)
+                rhs = self.expr(rhs_node)
+                if op != "=":
+                    rhs = "(%s %s %s)" % (cur, op[0], rhs)
+                base = self.strip(lhs["inner"][0], cstyle=True)
+                idx = self.int_expr(lhs["inner"][1])
+                arr = self.ptr_expr(lhs["inner"][0])
+                if base["kind"] == "MemberExpr":
+                    hv, fld = arr.split(".", 1)
+                    return [pad + "let %s := { %s with %s := %s.set %s %s }" % (hv, hv, fld, arr, idx, self.wrap(rhs))] + self.block(rest, ind, scope)
+                return [pad + "let %s := %s.set %s %s" % (arr, arr, idx, self.wrap(rhs))] + self.block(rest, ind, scope)
+            if lhs["kind"] != "DeclRefExpr":
+                raise Unsupported("%s: statement %s" % (self.where(s), op))
+            v = self.expr(lhs)
             rhs = self.expr(rhs_node)
             if op != "=":
                 rhs = "(%s %s %s)" % (v, op[0], rhs)
-            return [pad + "let %s := %s" % (v, rhs)] + self.block(rest, ind)
+            return [pad + "let %s := %s" % (v, rhs)] + self.block(rest, ind, define(lhs["referencedDecl"]["name"]))
         if k == "CallExpr":
             fn = self.callee(s)
             args = s["inner"][1:]
@@ -322,16 +561,16 @@ class FnTranslator:
                 v = self.outparam(args[1])
                 if v is None:
                     raise Unsupported("%s: LogGamma without result" % self.where(s))
-                return [pad + "let %s := Num.logGamma %s" % (v, self.atom(args[0]))] + self.block(rest, ind)
+                return [pad + "let %s := Num.logGamma %s" % (v, self.atom(args[0]))] + self.block(rest, ind, define(v))
             if fn == "esl_stats_IncompleteGamma" and len(args) == 4:
                 a, x = self.atom(args[0]), self.atom(args[1])
                 p, q = self.outparam(args[2]), self.outparam(args[3])
                 lines = []
                 if p is not None:
-                    lines.append(pad + "let %s := Num.incGammaP %s %s" % (p, a, x))
+                    lines.append(pad + "let %s := Num.incGammaP %s %s" % (p, a, x)); scope = define(p)
                 if q is not None:
-                    lines.append(pad + "let %s := Num.incGammaQ %s %s" % (q, a, x))
-                return lines + self.block(rest, ind)
+                    lines.append(pad + "let %s := Num.incGammaQ %s %s" % (q, a, x)); scope = define(q)
+                return lines + self.block(rest, ind, scope)
             raise Unsupported("%s: call statement %s" % (self.where(s), fn))
         if k == "IfStmt":
             if s.get("hasInit") or s.get("hasVar"):
@@ -342,34 +581,133 @@ class FnTranslator:
             el = self.flatten(inner[2]) if len(inner) > 2 else []
             th_full = th if self.terminates(th) else th + rest
             el_full = el if (el and self.terminates(el)) else el + rest
-            lines = [pad + "if %s then" % c] + self.block(th_full, ind + 1) + [pad + "else"] + self.block(el_full, ind + 1)
+            lines = [pad + "if %s then" % c] + self.block(th_full, ind + 1, scope) + [pad + "else"] + self.block(el_full, ind + 1, scope)
             return lines
+        if k == "ForStmt":
+            return self.for_loop(s, rest, ind, scope)
+        if k in ("DoStmt", "WhileStmt"):
+            return self.fuel_loop(s, rest, ind, scope)
         raise Unsupported("%s: statement kind %s" % (self.where(s), k))
+
+    def for_loop(self, s, rest, ind, scope):
+        """`for (k = c; k < N; k++) body` carrying one variable -> a fold over `List.range' c (N - c)`"""
+        pad = "  " * ind
+        inner = s["inner"]
+        if len(inner) != 5 or inner[1]:
+            raise Unsupported("%s: for statement form" % self.where(s))
+        init, _, cond, inc, body = inner
+        try:
+            if init["kind"] != "BinaryOperator" or init["opcode"] != "=":
+                raise KeyError
+            kv_node = self.strip(init["inner"][0])
+            kv = kv_node["referencedDecl"]["name"]
+            if self.var_kind(kv_node["referencedDecl"], s) != "int":
+                raise KeyError
+            start = self.strip(init["inner"][1])
+            if start["kind"] != "IntegerLiteral":
+                raise KeyError
+            start = int(start["value"])
+            if cond["kind"] != "BinaryOperator" or cond["opcode"] != "<" or self.strip(cond["inner"][0]).get("referencedDecl", {}).get("name") != kv:
+                raise KeyError
+            bound = self.int_expr(cond["inner"][1])
+            if inc["kind"] != "UnaryOperator" or inc["opcode"] != "++" or self.strip(inc["inner"][0]).get("referencedDecl", {}).get("name") != kv:
+                raise KeyError
+        except (KeyError, TypeError):
+            raise Unsupported("%s: only `for (k = c; k < N; k++)` is a counted loop" % self.where(s))
+        if self.contains_kind(body, ("ReturnStmt", "BreakStmt", "ContinueStmt", "GotoStmt", "DoStmt", "WhileStmt")):
+            raise Unsupported("%s: early exit from a counted loop" % self.where(s))
+        carried = self.assigned_roots(body, [])
+        if kv in carried:
+            raise Unsupported("%s: loop counter assigned in the body" % self.where(s))
+        if len(carried) != 1 or carried[0] not in scope:
+            raise Unsupported("%s: a counted loop must carry exactly one variable that holds a value (carries %s)" % (self.where(s), carried))
+        cv = self.ident(carried[0])
+        rng = "List.range %s" % bound if start == 0 else "List.range' %d (%s - %d)" % (start, bound, start)
+        self.loop_stack.append(None)
+        lines = [pad + "let %s := (%s).foldl (fun %s %s =>" % (cv, rng, cv, self.ident(kv))]
+        lines += self.block(self.flatten(body) + [{"kind": "_Yield", "var": carried[0]}], ind + 2, scope)
+        self.loop_stack.pop()
+        lines[-1] += ") %s" % cv
+        return lines + self.block(rest, ind, scope)
+
+    def fuel_loop(self, s, rest, ind, scope):
+        pad = "  " * ind
+        self.nloops += 1
+        idx = self.nloops
+        if not self.partial:
+            raise Unsupported("%s: loop in a function not marked partial" % self.where(s))
+        body, cond = (s["inner"][0], s["inner"][1]) if s["kind"] == "DoStmt" else (s["inner"][1], s["inner"][0])
+        if self.contains_kind(body, ("ContinueStmt", "GotoStmt")):
+            raise Unsupported("%s: continue/goto in a loop" % self.where(s))
+        pars = list(scope)
+        loop_name, exit_name = "%s_loop%d" % (self.name, idx), "%s_exit%d" % (self.name, idx)
+        bind = self.binders(pars)
+        names = " ".join("u" if self.vkind[v] == "rng" else self.ident(v) for v in pars)
+        exit_lines = self.block(rest, 1, pars)
+        self.helpers.append("/-- `%s`: the code after loop %d (line %s) -/\ndef %s (fuel : Nat) %s : Option α :=\n%s\n" % (
+            self.name, idx, s.get("range", {}).get("begin", {}).get("line", "?"), exit_name, bind, "\n".join(exit_lines)))
+        exit_call = "%s fuel %s" % (exit_name, names)
+        test = {"kind": "_LoopTest", "cond": cond, "loop": loop_name, "pars": pars, "exit": exit_call}
+        self.loop_stack.append(exit_call)
+        if s["kind"] == "DoStmt":
+            body_lines = self.block(self.flatten(body) + [test], 2, pars)
+        else:
+            again = dict(test, cond=None)
+            body_lines = ["    if %s then" % self.cond(cond)] + self.block(self.flatten(body) + [again], 3, pars) + ["    else", "      " + exit_call]
+        self.loop_stack.pop()
+        self.helpers.append("/-- `%s`: %s loop %d (line %s); `gas` counts the iterations still allowed, `none` = exhausted -/\n"
+                            "def %s (fuel : Nat) %s : Nat → Option α\n  | 0 => none\n  | gas + 1 =>\n%s\n" % (
+                                self.name, "do-while" if s["kind"] == "DoStmt" else "while", idx,
+                                s.get("range", {}).get("begin", {}).get("line", "?"), loop_name, bind, "\n".join(body_lines)))
+        return [pad + "%s fuel %s fuel" % (loop_name, names)]
 
     def translate(self):
         params, body = [], None
-        rng = []
+        kinds = []
         for c in self.f.get("inner", []):
             if c["kind"] == "ParmVarDecl":
                 t = c["type"]["qualType"]
-                if t == "double":
-                    params.append(self.ident(c["name"])); rng.append(False)
-                elif t == "ESL_RANDOMNESS *" and self.rng_param is None:
-                    self.rng_param = c["name"]; params.append("u"); rng.append(True)
-                else:
+                kd = self.kind_of(t)
+                if t == "ESL_RANDOMNESS *" and self.rng_param is None:
+                    self.rng_param = c["name"]; kd = "rng"
+                elif kd is None:
                     raise Unsupported("%s: parameter %s : %s" % (self.where(), c.get("name"), t))
+                self.vkind[c["name"]] = kd
+                params.append(c["name"])
             elif c["kind"] == "CompoundStmt":
                 body = c
         if self.f["type"]["qualType"].split("(")[0].strip() != "double":
             raise Unsupported("%s: return type %s" % (self.where(), self.f["type"]["qualType"]))
         if body is None:
             raise Unsupported("%s: no body" % self.where())
-        lines = self.block(self.flatten(body), 1)
+        self.partial = self.contains_kind(body, ("DoStmt", "WhileStmt")) or any(
+            r.get("inner") and self.strip(r["inner"][0])["kind"] == "CallExpr" and self.callee(self.strip(r["inner"][0])) in self.partial_fns
+            for r in self.collect(body, "ReturnStmt"))
+        lines = self.block(self.flatten(body), 1, [p for p in params])
         if self.rng_param is not None and self.rng_used != 1:
             raise Unsupported("%s: generator parameter but %d deviates drawn" % (self.where(), self.rng_used))
+        for p in params:
+            if self.vkind[p] == "void":
+                raise Unsupported("%s: void* parameter %s is never given a type" % (self.where(), p))
+        kinds = [self.vkind[p] for p in params]
         line = self.f.get("loc", {}).get("line", "?")
-        head = "/-- `%s` (%s:%s) -/\ndef %s (%s : α) : α :=" % (self.name, self.cfile, line, self.name, " ".join(params))
-        return head + "\n" + "\n".join(lines) + "\n", rng
+        if all(kd in ("d", "rng") for kd in kinds) and not self.partial:       # the round-1 form, unchanged
+            head = "/-- `%s` (%s:%s) -/\ndef %s (%s : α) : α :=" % (
+                self.name, self.cfile, line, self.name, " ".join("u" if self.vkind[p] == "rng" else self.ident(p) for p in params))
+        else:
+            head = "/-- `%s` (%s:%s) -/\ndef %s %s%s : %s :=" % (
+                self.name, self.cfile, line, self.name, "(fuel : Nat) " if self.partial else "", self.binders(params),
+                "Option α" if self.partial else "α")
+        return "".join(h + "\n" for h in self.helpers) + head + "\n" + "\n".join(lines) + "\n", kinds
+
+    def collect(self, n, kind):
+        out = []
+        if isinstance(n, dict):
+            if n.get("kind") == kind:
+                out.append(n)
+            for c in n.get("inner", []):
+                out.extend(self.collect(c, kind))
+        return out
 
 
 HEADER = """import EaselModel.Dist.Num
@@ -389,6 +727,8 @@ def translate_all(src_dir, plan):
        Returns (lean_text, info) ; raises Unsupported."""
     files = FileCache(src_dir)
     known = {}
+    structs = {}
+    partial_fns = set()
     chunks = []
     info = {"functions": [], "literals": set()}
     for cfile, filt, names in plan:
@@ -401,42 +741,80 @@ def translate_all(src_dir, plan):
         for nm in names:
             if nm not in defs:
                 raise Unsupported("%s: function %s not found (renamed or removed?)" % (cfile, nm))
-            t = FnTranslator(defs[nm], cfile, files, known)
-            text, rng = t.translate()
-            known[nm] = rng
+            t = FnTranslator(defs[nm], cfile, files, known, structs, partial_fns)
+            text, kinds = t.translate()
+            known[nm] = kinds
+            if t.partial:
+                partial_fns.add(nm)
             chunks.append(text)
             info["functions"].append(nm)
             info["literals"].update(t.literals)
     info["literals"] = sorted(info["literals"])
     info["arity"] = {nm: len(known[nm]) for nm in info["functions"]}
-    info["rng"] = {nm: any(known[nm]) for nm in info["functions"]}
+    info["rng"] = {nm: "rng" in known[nm] for nm in info["functions"]}
+    info["kinds"] = {nm: list(known[nm]) for nm in info["functions"]}
+    info["partial"] = sorted(partial_fns)
+    info["structs"] = {sn: dict(f) for sn, f in structs.items()}
+    scalar = lambda nm: all(kd in ("d", "rng") for kd in known[nm])
     disp = ["/-- name → translated function (a generator parameter is the leading deviate `u`) -/",
             "def dispatch (name : String) (a : List α) : Option α :=", "  match name, a with"]
     for nm in info["functions"]:
-        xs = ["x%d" % i for i in range(len(known[nm]))]
-        disp.append('  | "%s", [%s] => some (%s %s)' % (nm, ", ".join(xs), nm, " ".join(xs)))
+        if scalar(nm) and nm not in partial_fns:
+            xs = ["x%d" % i for i in range(len(known[nm]))]
+            disp.append('  | "%s", [%s] => some (%s %s)' % (nm, ", ".join(xs), nm, " ".join(xs)))
     disp.append("  | _, _ => none")
-    return HEADER + "\n".join(chunks) + "\n" + "\n".join(disp) + "\n\nend EaselModel.Dist.Gen\n", info
+    if partial_fns or any(not scalar(nm) for nm in info["functions"]):
+        disp += ["", "/-- name → translated loop-containing function (`some none` = fuel exhausted) and the generic-API wrappers",
+                 "    `f(x, void *params)` over a parameter vector -/",
+                 "def dispatchP (fuel : Nat) (name : String) (a : List α) : Option (Option α) :=", "  match name, a with"]
+        for nm in info["functions"]:
+            if nm in partial_fns and scalar(nm):
+                xs = ["x%d" % i for i in range(len(known[nm]))]
+                disp.append('  | "%s", [%s] => some (%s fuel %s)' % (nm, ", ".join(xs), nm, " ".join(xs)))
+            elif known[nm] == ["d", "arr"] and "_generic_" in nm:
+                disp.append('  | "%s", x0 :: ps => some (%s%s x0 ps)' % (nm, "" if nm in partial_fns else "some (", nm + (" fuel" if nm in partial_fns else "")) + ("" if nm in partial_fns else ")"))
+        disp.append("  | _, _ => none")
+    sdecl = []
+    for sn, fields in structs.items():
+        sdecl.append("/-- the members of the C parameter structure `%s` that the translated functions use -/" % sn)
+        sdecl.append("structure %s (α : Type) where" % sn)
+        for fn_, kd in fields.items():
+            sdecl.append("  %s : %s" % (fn_ + "_" if fn_ in LEAN_KEYWORDS else fn_, {"d": "α", "int": "Nat", "arr": "List α"}[kd]))
+        sdecl.append("")
+    head = HEADER
+    if sdecl:
+        head = HEADER.replace("namespace EaselModel.Dist.Gen\n", "namespace EaselModel.Dist.Gen\n" + "\n".join(sdecl) + "\n", 1)
+    return head + "\n".join(chunks) + "\n" + "\n".join(disp) + "\n\nend EaselModel.Dist.Gen\n", info
 
 
+GEN4 = ["generic_pdf", "generic_cdf", "generic_surv", "generic_invcdf"]
 FAMILIES = [
     ("esl_exponential.c", "esl_exp_", ["esl_exp_pdf", "esl_exp_logpdf", "esl_exp_cdf", "esl_exp_logcdf", "esl_exp_surv",
-                                       "esl_exp_logsurv", "esl_exp_invcdf", "esl_exp_invsurv", "esl_exp_Sample"]),
+                                       "esl_exp_logsurv", "esl_exp_invcdf", "esl_exp_invsurv", "esl_exp_Sample"] +
+     ["esl_exp_" + g for g in GEN4]),
     ("esl_gumbel.c", "esl_gumbel_", ["esl_gumbel_pdf", "esl_gumbel_logpdf", "esl_gumbel_cdf", "esl_gumbel_logcdf",
                                      "esl_gumbel_surv", "esl_gumbel_logsurv", "esl_gumbel_invcdf", "esl_gumbel_invsurv",
-                                     "esl_gumbel_Sample"]),
+                                     "esl_gumbel_Sample"] + ["esl_gumbel_" + g for g in GEN4]),
     ("esl_gev.c", "esl_gev_", ["esl_gev_pdf", "esl_gev_logpdf", "esl_gev_cdf", "esl_gev_logcdf", "esl_gev_surv",
-                               "esl_gev_logsurv", "esl_gev_invcdf", "esl_gev_Sample"]),
+                               "esl_gev_logsurv", "esl_gev_invcdf", "esl_gev_Sample"] + ["esl_gev_" + g for g in GEN4]),
     ("esl_weibull.c", "esl_wei_", ["esl_wei_pdf", "esl_wei_logpdf", "esl_wei_cdf", "esl_wei_logcdf", "esl_wei_surv",
-                                   "esl_wei_logsurv", "esl_wei_invcdf", "esl_wei_Sample"]),
-    # families on the special functions of esl_stats.c (function symbols of the class); their bisection inverses
-    # (do-while loops) are outside the subset and stay monitor-only
+                                   "esl_wei_logsurv", "esl_wei_invcdf", "esl_wei_Sample"] + ["esl_wei_" + g for g in GEN4]),
+    # families on the special functions of esl_stats.c (function symbols of the class); their bracketing + bisection
+    # inverses (do-while loops) recurse on fuel
     ("esl_stretchexp.c", "esl_sxp_", ["esl_sxp_pdf", "esl_sxp_logpdf", "esl_sxp_cdf", "esl_sxp_logcdf", "esl_sxp_surv",
-                                      "esl_sxp_logsurv"]),
+                                      "esl_sxp_logsurv", "esl_sxp_invcdf"] + ["esl_sxp_" + g for g in GEN4]),
     ("esl_gamma.c", "esl_gam_", ["esl_gam_pdf", "esl_gam_logpdf", "esl_gam_cdf", "esl_gam_logcdf", "esl_gam_surv",
-                                 "esl_gam_logsurv"]),
-    ("esl_normal.c", "esl_normal_", ["esl_normal_pdf", "esl_normal_logpdf", "esl_normal_cdf", "esl_normal_surv"]),
+                                 "esl_gam_logsurv", "esl_gam_invcdf"] + ["esl_gam_" + g for g in GEN4]),
+    ("esl_normal.c", "esl_normal_", ["esl_normal_pdf", "esl_normal_logpdf", "esl_normal_cdf", "esl_normal_surv"] +
+     ["esl_normal_" + g for g in GEN4[:3]]),
     ("esl_lognormal.c", "esl_lognormal_", ["esl_lognormal_pdf", "esl_lognormal_logpdf"]),
+    # the mixtures: counted loops over the components (folds), esl_vec_DLogSum for the log versions, bisection inverses
+    ("esl_vectorops.c", "esl_vec_D", ["esl_vec_DMax", "esl_vec_DMin", "esl_vec_DLogSum"]),
+    ("esl_hyperexp.c", "esl_hxp_", ["esl_hxp_pdf", "esl_hxp_logpdf", "esl_hxp_cdf", "esl_hxp_logcdf", "esl_hxp_surv",
+                                    "esl_hxp_logsurv", "esl_hxp_invcdf"] + ["esl_hxp_" + g for g in GEN4]),
+    ("esl_mixgev.c", "esl_mixgev_", ["esl_mixgev_pdf", "esl_mixgev_logpdf", "esl_mixgev_cdf", "esl_mixgev_logcdf",
+                                     "esl_mixgev_surv", "esl_mixgev_logsurv", "esl_mixgev_invcdf"] +
+     ["esl_mixgev_" + g for g in GEN4]),
 ]
 
 if __name__ == "__main__":
